@@ -5,6 +5,7 @@
 package schedsim
 
 import (
+	"os"
 	"fmt"
 	"sort"
 	"sync"
@@ -203,6 +204,9 @@ func (s *scheduler) run(bodies []func()) {
 			pick = rs[s.rng.Intn(len(rs))]
 		}
 		s.Decisions = append(s.Decisions, pick.id)
+		if os.Getenv("VERIF_TRACE_STEPS") != "" {
+			fmt.Fprintf(os.Stderr, "sched: w%d %s %s\n", pick.id, pick.wantMode, pick.site)
+		}
 		if len(s.Decisions) > s.maxDecisions {
 			s.Stuck = "too many scheduling decisions (livelock?)"
 			break
